@@ -45,7 +45,7 @@ TrResetLA == /\ IsEvent("ResetLA") /\ UNCHANGED next
              /\ obs' = [kind |-> "ResetLA", tab |-> (Ev.ptab = Ev.stab)]
 TrLocalAdvance == /\ IsEvent("LocalAdvance") /\ UNCHANGED next
                   /\ node' = LocalAdvanceN(node, Ev.encs)
-                  /\ obs' = [kind |-> "LocalAdvance", sync |-> (Ev.own1 = Len(node.S) + Len(Ev.encs) /\ Ev.next = node.next)]
+                  /\ obs' = [kind |-> "LocalAdvance", sync |-> (~Ev.err /\ Ev.own1 = Len(node.S) + Len(Ev.encs) /\ Ev.next = node.next)]
 TrCatchUp == /\ IsEvent("CatchUp") /\ UNCHANGED next
              /\ LET m == CatchUpN(node, NoEnv) IN
                   /\ obs' = [kind |-> "CatchUp", sync |-> InSync(Ev.next0, Ev.store0), tab |-> (Ev.ptab = Ev.stab),
